@@ -314,6 +314,7 @@ type Features struct {
 	NamedFrags      int
 	Depth           int
 	AliasVariants   int
+	DirOnUnionFrag  int // directives on a fragment whose type condition is the union itself
 }
 
 type qgen struct {
@@ -629,17 +630,7 @@ func (g *qgen) genSpread(obj string, depth int, underUnion bool, scope map[strin
 	if len(s.Dirs) > 0 {
 		g.feat.DirOnSpread++
 	}
-	g.spreadCount[name]++
-	if g.spreadCount[name] == 2 {
-		g.feat.SpreadTwice++
-	}
-	if g.spreadConds[name] == nil {
-		g.spreadConds[name] = map[string]bool{}
-	}
-	g.spreadConds[name][g.dirKey(s.Dirs)] = true
-	if len(g.spreadConds[name]) == 2 && g.spreadCount[name] >= 2 {
-		g.feat.SpreadDiffConds++
-	}
+	g.noteSpread(name, s.Dirs)
 	return s
 }
 
@@ -676,8 +667,7 @@ func (g *qgen) genUnionSels(u string, depth int) []Sel {
 	}
 	if g.o.FragOnUnion && rapid.IntRange(0, 2).Draw(g.t, "fragonunion") == 0 {
 		g.feat.FragOnUnion++
-		m := members[rapid.IntRange(0, len(members)-1).Draw(g.t, "m")]
-		sels = append(sels, Sel{Kind: "inline", On: u, Sub: []Sel{{Kind: "inline", On: m, Sub: g.genObjSels(m, depth, true, map[string]int{})}}})
+		sels = append(sels, g.genFragOnUnion(u, depth))
 	}
 	if len(sels) == 0 {
 		sels = append(sels, Sel{Kind: "field", Name: "__typename"})
@@ -689,6 +679,74 @@ func (g *qgen) genUnionSels(u string, depth int) []Sel {
 		out[i] = sels[p]
 	}
 	return out
+}
+
+// genFragOnUnion: a fragment whose type condition is the union itself, inline or named (and
+// then possibly spread at several places), carrying directives of its own and holding
+// member fragments that carry theirs.
+func (g *qgen) genFragOnUnion(u string, depth int) Sel {
+	members := UnionMembers[u]
+	body := func() []Sel {
+		var inner []Sel
+		if g.o.Directives || rapid.Bool().Draw(g.t, "futypename") {
+			inner = append(inner, Sel{Kind: "field", Name: "__typename"})
+		}
+		k := rapid.IntRange(1, 2).Draw(g.t, "fumembers")
+		for i := 0; i < k; i++ {
+			m := members[rapid.IntRange(0, len(members)-1).Draw(g.t, "m")]
+			s := Sel{Kind: "inline", On: m, Sub: g.genObjSels(m, depth, true, map[string]int{})}
+			s.Dirs = g.genDirs(true)
+			inner = append(inner, s)
+		}
+		return inner
+	}
+	if rapid.IntRange(0, 2).Draw(g.t, "funamed") != 0 {
+		s := Sel{Kind: "inline", On: u, Sub: body()}
+		s.Dirs = g.genDirs(true)
+		if len(s.Dirs) > 0 {
+			g.feat.DirOnUnionFrag++
+		}
+		return s
+	}
+	var candidates []string
+	for _, f := range g.q.Frags {
+		if f.On == u && !strings.HasPrefix(f.Name, "INPROGRESS") {
+			candidates = append(candidates, f.Name)
+		}
+	}
+	var name string
+	if len(candidates) > 0 && rapid.IntRange(0, 2).Draw(g.t, "reusefrag") > 0 {
+		name = candidates[rapid.IntRange(0, len(candidates)-1).Draw(g.t, "whichfrag")]
+	} else {
+		name = fmt.Sprintf("F%d", len(g.q.Frags))
+		idx := len(g.q.Frags)
+		g.q.Frags = append(g.q.Frags, FragDef{Name: "INPROGRESS" + name, On: u})
+		sels := body()
+		g.q.Frags[idx] = FragDef{Name: name, On: u, Sels: sels}
+		g.feat.NamedFrags++
+	}
+	s := Sel{Kind: "spread", Frag: name}
+	s.Dirs = g.genDirs(true)
+	if len(s.Dirs) > 0 {
+		g.feat.DirOnSpread++
+		g.feat.DirOnUnionFrag++
+	}
+	g.noteSpread(name, s.Dirs)
+	return s
+}
+
+func (g *qgen) noteSpread(name string, dirs []Dir) {
+	g.spreadCount[name]++
+	if g.spreadCount[name] == 2 {
+		g.feat.SpreadTwice++
+	}
+	if g.spreadConds[name] == nil {
+		g.spreadConds[name] = map[string]bool{}
+	}
+	g.spreadConds[name][g.dirKey(dirs)] = true
+	if len(g.spreadConds[name]) == 2 && g.spreadCount[name] >= 2 {
+		g.feat.SpreadDiffConds++
+	}
 }
 
 func seqInts(n int) []int {
